@@ -7,5 +7,6 @@ import StunVerif.Props.C01
 #print axioms StunVerif.C01.walk_progress
 #print axioms StunVerif.C01.iter_fuel_suffices
 #print axioms StunVerif.C01.attribute_total
+#print axioms StunVerif.C01.display_total
 #print axioms StunVerif.C01.validate_total
 #print axioms StunVerif.C01.police_total
